@@ -140,15 +140,19 @@ static W2Plan gen_w2(const std::string &prop, uint64_t vseed, uint64_t index) {
     p.prop = prop; p.seed = seed; p.t0 = (uint64_t)r.range(10, 5000) * 1000 + (uint64_t)r.range(0, 999);
     int nn = prop == "C17" ? (int)r.range(2, 3) : (int)r.range(1, 2);
     static const char *NAMES[] = {"eth0", "eth1", "wlan0"};
+    // interface names in a prefix relation (VLAN sub-interfaces, eth1/eth10, monitor interfaces), C04 only: each NIC must report ITS addresses
+    static const char *PFX[][3] = {{"eth0", "eth0.100", "eth1"}, {"eth1", "eth10", "eth0"}, {"wlan0", "wlan0mon", "eth0"}, {"eth0.100", "eth0", "eth0.1000"}, {"br0", "br0.5", "br"}, {"eth10", "eth1", "eth100"}};
+    int pf = -1;
+    if (prop == "C04" && r.chance(0.5)) { pf = (int)r.below(6); nn = (int)r.range(2, 3); }
     for (int i = 0; i < nn; i++) {
         NicCfg n;
-        n.name = NAMES[i];
+        n.name = pf >= 0 ? PFX[pf][i] : NAMES[i];
         for (auto &c : n.mac.a) c = (uint8_t)r.next();
         n.mac.a[0] = (uint8_t)((n.mac.a[0] & 0xFC) | 0x08); n.mac.a[5] = (uint8_t)((n.mac.a[5] & 0xF0) | i);
         n.mtu = r.chance(0.6) ? 1500 : (uint32_t)r.pickl({576, 1280, 4096, 9000, 9216});
-        n.ipv4 = (uint32_t)r.next(); n.has4 = !r.chance(0.1);
+        n.ipv4 = (uint32_t)r.next(); n.has4 = !r.chance(pf >= 0 ? 0.35 : 0.1);
         for (auto &c : n.ipv6) c = (uint8_t)r.next();
-        n.has6 = !r.chance(0.2);
+        n.has6 = !r.chance(pf >= 0 ? 0.35 : 0.2);
         n.loopback = false;
         p.nics.push_back(n);
     }
@@ -537,7 +541,12 @@ int w2_getifaddrs(struct ifaddrs **out) {
     int64_t idx = (int64_t)g_getifaddrs_idx++;
     if (g_plan.getifaddrs_fail_from >= 0 && idx >= g_plan.getifaddrs_fail_from) { g_probe["getifaddrs_fault_fired"]++; errno = ENOMEM; return -1; }
     struct ifaddrs *head = nullptr, **tail = &head;
-    for (auto &n : g_nic) {
+    // the kernel lists interfaces in index order, which need not be the order the daemon opened them in: order drawn from the plan's seed
+    std::vector<size_t> ord;
+    for (size_t i = 0; i < g_nic.size(); i++) ord.push_back(i);
+    { uint64_t x = mix64(g_plan.seed, 0x1FADD5); for (size_t i = ord.size(); i > 1; i--) { std::swap(ord[i - 1], ord[x % i]); x = mix64(x, i); } }
+    for (size_t oi : ord) {
+        NicRt &n = g_nic[oi];
         for (int fam = 0; fam < 3; fam++) {
             if (fam == 1 && !n.cfg.has4) continue;
             if (fam == 2 && !n.cfg.has6) continue;
